@@ -184,7 +184,7 @@ def m1(ctx, quick, box):
         runs = []
         cfgs = ["MC_Client2PC_quick.cfg"] if quick else ["MC_Client2PC_conc.cfg", "MC_Client2PC.cfg", "MC_Client2PC_conc_big.cfg", "MC_Client2PC_conc2.cfg"]
         for c in cfgs:
-            r = ctx.tlc_or_undecided("Client2PC", c, timeout=3000, coverage=(not quick and c == "MC_Client2PC_conc2.cfg")   # the configuration that enables every action,
+            r = ctx.tlc_or_undecided("Client2PC", c, timeout=3000, coverage=(not quick and c == "MC_Client2PC_conc2.cfg"),   # the cfg that enables every action
                                      workers=max(2, ctx.workers // 2))
             if r.violated:
                 raise Undecided("M1: Client2PC.tla violates %s under %s: the specification (design layer) needs attention\n%s"
